@@ -278,12 +278,12 @@ static U32 vf_hostres(U32 index, const U64* a, int n) {
 
 def header_import_names(header_text, nimports):
     """C names of imported functions, in import order, as declared in the generated header"""
-    names = re.findall(r'^\w+ (\w+)\(void\*[,)]', header_text, re.M)
+    names = re.findall(r'^\s*\w+ (\w+)\(void\*[,)]', header_text, re.M)
     return names[:nimports] if len(names) >= nimports else None
 
 
 def header_export_names(header_text, modname):
-    return re.findall(r'^\w+ (\w+)\(%sInstance\*i[,)]' % re.escape(modname), header_text, re.M)
+    return re.findall(r'^\s*\w+ (\w+)\(%sInstance\* ?i[,)]' % re.escape(modname), header_text, re.M)
 
 
 def gen_driver(m, modname, header_text, ninst=2, header_name=None, prefix_funcs=False):
@@ -423,8 +423,8 @@ def gen_driver(m, modname, header_text, ninst=2, header_name=None, prefix_funcs=
         out.append('  { wasmFunc f = %s.data[s];' % texpr)
         out.append('  if (f == NULL) { printf("t null\\n"); return; }')
         for i, cname in enumerate(inames):
-            out.append('  if (f == (wasmFunc)&%s%s) { printf("t %d\\n"); return; }' % (
-                (modname + '_') if prefix_funcs else '', cname, i))
+            # names of imported functions are taken from the header (already prefixed under -m)
+            out.append('  if (f == (wasmFunc)&%s) { printf("t %d\\n"); return; }' % (cname, i))
         for i in range(len(m.funcs)):
             out.append('  if (f == (wasmFunc)&%sf%d) { printf("t %d\\n"); return; }' % (
                 (modname + '_') if prefix_funcs else '', i + len(fimps), i + len(fimps)))
